@@ -14,9 +14,8 @@
 (* A transaction the node accepted must be enabled in the specification    *)
 (* and lead to exactly the observed state; one it refused must be disabled *)
 (* in the specification and leave the observed state unchanged.            *)
-(* The BP ranking is compared up to the order of candidates the code's     *)
-(* comparator cannot tell apart (equal tally, equal id bytes [7:]); that   *)
-(* their order is not deterministic is established directly by the harness.*)
+(*  {"ev":"Discard","obs":S}   the block under construction failed: its      *)
+(*                             state is dropped, CommitParams(false)         *)
 (***************************************************************************)
 EXTENDS Governance, Json
 
@@ -31,10 +30,12 @@ TC == {"c1", "c2", "c3", "c4", "c5"}
 TCKey == [c \in TC |-> CASE c = "c1" -> 1 [] c = "c2" -> 2 [] c = "c3" -> 2 [] c = "c4" -> 3 [] c = "c5" -> 3]
 TCId  == [c \in TC |-> CASE c = "c1" -> 1 [] c = "c2" -> 2 [] c = "c3" -> 3 [] c = "c4" -> 4 [] c = "c5" -> 5]
 TBp == SUBSET TC
-TD == {"BPCOUNT", "STAKINGMIN", "NAMEPRICE"}
-TDVals == [i \in TD |-> CASE i = "BPCOUNT" -> {2, 5} [] i = "STAKINGMIN" -> {5000, 10000, 20000} [] i = "NAMEPRICE" -> {2, 3}]
+TD == {"BPCOUNT", "STAKINGMIN", "GASPRICE", "NAMEPRICE"}
+\* 0 and BPCOUNT 101 are values validateById refuses
+TDVals == [i \in TD |-> CASE i = "BPCOUNT" -> {0, 2, 5, 101} [] i = "STAKINGMIN" -> {0, 5000, 10000, 20000}
+                          [] i = "GASPRICE" -> {0, 50, 100} [] i = "NAMEPRICE" -> {0, 2, 3}]
 TN == {"n1", "n2", "n3"}
-TDefaults == [p \in ParamIds |-> CASE p = "BPCOUNT" -> 3 [] p = "STAKINGMIN" -> 10000 [] p = "NAMEPRICE" -> 1]
+TDefaults == [p \in ParamIds |-> CASE p = "BPCOUNT" -> 3 [] p = "STAKINGMIN" -> 10000 [] p = "GASPRICE" -> 50 [] p = "NAMEPRICE" -> 1]
 
 ToSet(s) == {s[k] : k \in DOMAIN s}
 
@@ -55,12 +56,6 @@ WellFormed(op) ==
   /\ op.name \in {"NameCreate", "NameUpdate"} => op.n \in Names
   /\ op.name \in {"NameUpdate", "Transfer"} => op.to \in Accts
 
-\* the code's comparator: tally, then id bytes [7:]
-BeforeKey(t, i, c, d) == t[c] > t[d] \/ (t[c] = t[d] /\ KeyOf(i, c) < KeyOf(i, d))
-RankOK(t, i, r) == /\ Len(r) = Cardinality(Listed(t, i))
-                   /\ ToSet(r) = Listed(t, i)
-                   /\ \A k \in 1..(Len(r) - 1) : ~BeforeKey(t, i, r[k + 1], r[k])
-
 \* the observed state equals the (already determined) next state of the specification
 ObsMatch(o) ==
   /\ height' = o.h /\ sysBal' = o.sys /\ nameBal' = o.nb /\ total' = o.total
@@ -75,7 +70,7 @@ ObsMatch(o) ==
   /\ \A i \in Issues :
        /\ {p.c : p \in ToSet(o.tally[i])} = CandsOf(i)
        /\ \A p \in ToSet(o.tally[i]) : tally'[i][p.c] = p.t
-       /\ RankOK(tally'[i], i, o.rank[i])
+       /\ RankingOf(tally'[i], i) = o.rank[i]      \* the stored ranking, exactly in the order the specification demands
   /\ \A i \in DaoIssues : voteTotal'[i] = o.vtotal[i]
   /\ \A p \in ParamIds : param'[p] = o.param[p] /\ paramNext'[p] = o.pnext[p]
   /\ \A n \in Names : /\ names'[n].owner = o.names[n].owner
@@ -97,6 +92,8 @@ TraceReset ==
   /\ paramNext' = [p \in ParamIds |-> Absent]
   /\ names' = [n \in Names |-> [owner |-> None, dest |-> None, born |-> 0]]
   /\ vpr' = [a \in Accts |-> 0]
+  /\ ndisc' = 0
+  /\ blockStart' = absv'
   /\ lastAct' = [name |-> "Reset"]
   /\ ObsMatch(TraceLog[l].obs)
   /\ l' = l + 1
@@ -106,7 +103,7 @@ TraceTx ==
   /\ LET e  == TraceLog[l]
          op == OpOf(e.op)
      IN /\ WellFormed(op)
-        /\ IF e.ok THEN Do(op) /\ nops' = nops /\ height' = height /\ lastAct' = op
+        /\ IF e.ok THEN Do(op) /\ nops' = nops /\ height' = height /\ UNCHANGED <<blockStart, ndisc>> /\ lastAct' = op
                    ELSE Refuse(op)
         /\ ObsMatch(e.obs)
   /\ l' = l + 1
@@ -117,7 +114,15 @@ TraceBlock ==
   /\ ObsMatch(TraceLog[l].obs)
   /\ l' = l + 1
 
-TraceNext == TraceReset \/ TraceTx \/ TraceBlock
+\* a block without transactions may fail as well: nothing to restore then
+TraceDiscard ==
+  /\ l <= Len(TraceLog) /\ TraceLog[l].ev = "Discard"
+  /\ IF absv # blockStart THEN DiscardBlock
+                           ELSE UNCHANGED vars
+  /\ ObsMatch(TraceLog[l].obs)
+  /\ l' = l + 1
+
+TraceNext == TraceReset \/ TraceTx \/ TraceBlock \/ TraceDiscard
 TraceSpec == TraceInit /\ [][TraceNext]_tvars
 
 TraceAccepted == TLCGet("stats").diameter - 1 = Len(TraceLog)
